@@ -1,6 +1,9 @@
 package ref
 
-import "strings"
+import (
+	"encoding/json"
+	"strings"
+)
 
 // Reference table for C08, one clause of the statement per block. Returns judged=false when
 // the statement has no clause for the combination (only order-independence is asserted there).
@@ -59,6 +62,10 @@ func Applicable(kind NodeKind, isProp bool, rules []RuleAtom) (accept, judged bo
 	typ := ""
 	if t := has(rules, "type"); t != nil {
 		typ = strings.Trim(t.Tok, `"`)
+		var dec string
+		if json.Unmarshal([]byte(t.Tok), &dec) == nil {
+			typ = dec // the name may be written with escape sequences
+		}
 	}
 	typeRef := strings.HasPrefix(typ, "@")
 	isFormat := typ == "email" || typ == "uri" || typ == "uuid" || typ == "date" || typ == "datetime"
